@@ -171,6 +171,77 @@ fn vp_native_settings_flow() {
     println!("VP-NATIVE settings_flow cases={}", cases);
 }
 
+/// C16, model-based: every sequence of up to 4 operations over sessions (set, header, header_append, clone, create a request) and the
+/// most recent request builder (setters, header, header_append) is replayed against a plain value model; at the end every request
+/// and every session must equal its model (sessions are observed through a fresh request)
+#[test]
+fn vp_native_settings_sequences() {
+    #[derive(Clone, Debug, PartialEq)]
+    struct M { max_headers: usize, max_redirections: u32, follow: bool, compress: bool, headers: Vec<(String, String)> }
+    impl M {
+        fn set(&mut self, n: &str, v: &str) { let n = n.to_ascii_lowercase(); self.headers.retain(|(k, _)| *k != n); self.headers.push((n, v.to_string())); }
+        fn append(&mut self, n: &str, v: &str) { self.headers.push((n.to_ascii_lowercase(), v.to_string())); }
+        fn vals(&self, n: &str) -> Vec<String> { self.headers.iter().filter(|(k, _)| k == n).map(|(_, v)| v.clone()).collect() }
+    }
+    #[derive(Clone, Copy, Debug)]
+    enum Op { SMaxH(usize, usize), SFollow(usize, bool), SCompress(usize, bool), SMaxR(usize, u32), SHeader(usize, &'static str, &'static str), SAppend(usize, &'static str, &'static str),
+              SClone(usize), SGet(usize), BMaxH(usize), BFollow(bool), BCompress(bool), BMaxR(u32), BHeader(&'static str, &'static str), BAppend(&'static str, &'static str) }
+    use Op::*;
+    let alphabet = [SMaxH(0, 7), SMaxH(1, 9), SFollow(0, false), SCompress(0, false), SCompress(1, false), SMaxR(0, 2), SHeader(0, "X-A", "s1"), SHeader(1, "x-a", "s2"),
+                    SAppend(0, "X-A", "s3"), SAppend(0, "Accept", "text/x"), SAppend(1, "X-A", "s4"), SClone(0), SGet(0), SGet(1), BMaxH(3), BFollow(false), BCompress(false), BCompress(true), BMaxR(1),
+                    BHeader("x-a", "b1"), BAppend("X-A", "b2"), BHeader("User-Agent", "ua"), BAppend("accept", "b/acc")];
+    let check = |what: &str, seq: &[Op], p: &PreparedRequest<body::Empty>, m: &M| {
+        let vals = |n: &str| -> Vec<String> { p.headers().get_all(n).iter().map(|v| v.to_str().unwrap().to_string()).collect() };
+        let ctx = format!("{} after {:?}", what, seq);
+        assert_eq!((p.base_settings.max_headers, p.base_settings.max_redirections, p.base_settings.follow_redirects, p.base_settings.allow_compression),
+                   (m.max_headers, m.max_redirections, m.follow, m.compress), "settings of {}", ctx);
+        assert_eq!(vals("x-a"), m.vals("x-a"), "X-A of {}", ctx);
+        assert_eq!(vals("accept"), if m.vals("accept").is_empty() { vec!["*/*".to_string()] } else { m.vals("accept") }, "Accept of {}", ctx);
+        if m.vals("user-agent").is_empty() { assert_eq!(vals("user-agent").len(), 1, "default User-Agent of {}", ctx); } else { assert_eq!(vals("user-agent"), m.vals("user-agent"), "User-Agent of {}", ctx); }
+        assert_eq!(vals("accept-encoding"), if m.compress { vec!["gzip, deflate".to_string()] } else { vec![] }, "Accept-Encoding of {}", ctx);
+    };
+    let mut cases = 0u64;
+    let mut idx = vec![0usize; 4];
+    'seqs: loop {
+        for len in 1..=4usize {
+            if len < 4 && idx[len..].iter().any(|&i| i != 0) { continue; }   // shorter sequences once
+            let seq: Vec<Op> = idx[..len].iter().map(|&i| alphabet[i]).collect();
+            let base = M { max_headers: 100, max_redirections: 5, follow: true, compress: true, headers: vec![] };
+            let mut sessions: Vec<(crate::Session, M)> = vec![({ let mut s = crate::Session::new(); s.proxy_settings(crate::ProxySettings::builder().build()); s }, base.clone())];
+            let mut builders: Vec<(Option<crate::RequestBuilder>, M)> = Vec::new();
+            let mut valid = true;
+            for op in &seq {
+                match *op {
+                    SMaxH(i, v) => { if let Some((s, m)) = sessions.get_mut(i) { s.max_headers(v); m.max_headers = v; } else { valid = false; } }
+                    SFollow(i, v) => { if let Some((s, m)) = sessions.get_mut(i) { s.follow_redirects(v); m.follow = v; } else { valid = false; } }
+                    SCompress(i, v) => { if let Some((s, m)) = sessions.get_mut(i) { s.allow_compression(v); m.compress = v; } else { valid = false; } }
+                    SMaxR(i, v) => { if let Some((s, m)) = sessions.get_mut(i) { s.max_redirections(v); m.max_redirections = v; } else { valid = false; } }
+                    SHeader(i, n, v) => { if let Some((s, m)) = sessions.get_mut(i) { s.header(n, v); m.set(n, v); } else { valid = false; } }
+                    SAppend(i, n, v) => { if let Some((s, m)) = sessions.get_mut(i) { s.header_append(n, v); m.append(n, v); } else { valid = false; } }
+                    SClone(i) => { if sessions.len() < 2 { if let Some((s, m)) = sessions.get(i) { let c = (s.clone(), m.clone()); sessions.push(c); } else { valid = false; } } else { valid = false; } }
+                    SGet(i) => { if let Some((s, m)) = sessions.get(i) { builders.push((Some(s.get("http://h.test/")), m.clone())); } else { valid = false; } }
+                    BMaxH(v) => { if let Some((b, m)) = builders.last_mut() { *b = Some(b.take().unwrap().max_headers(v)); m.max_headers = v; } else { valid = false; } }
+                    BFollow(v) => { if let Some((b, m)) = builders.last_mut() { *b = Some(b.take().unwrap().follow_redirects(v)); m.follow = v; } else { valid = false; } }
+                    BCompress(v) => { if let Some((b, m)) = builders.last_mut() { *b = Some(b.take().unwrap().allow_compression(v)); m.compress = v; } else { valid = false; } }
+                    BMaxR(v) => { if let Some((b, m)) = builders.last_mut() { *b = Some(b.take().unwrap().max_redirections(v)); m.max_redirections = v; } else { valid = false; } }
+                    BHeader(n, v) => { if let Some((b, m)) = builders.last_mut() { *b = Some(b.take().unwrap().header(n, v)); m.set(n, v); } else { valid = false; } }
+                    BAppend(n, v) => { if let Some((b, m)) = builders.last_mut() { *b = Some(b.take().unwrap().header_append(n, v)); m.append(n, v); } else { valid = false; } }
+                }
+                if !valid { break; }
+            }
+            if valid {
+                cases += 1;
+                for (k, (b, m)) in builders.iter_mut().enumerate() { let p = b.take().unwrap().prepare(); check(&format!("request {}", k), &seq, &p, m); }
+                for (k, (s, m)) in sessions.iter().enumerate() { let p = s.get("http://h.test/").prepare(); check(&format!("session {} (seen through a fresh request)", k), &seq, &p, m); }
+            }
+        }
+        // next index vector
+        let mut k = 0;
+        loop { if k == 4 { break 'seqs; } idx[k] += 1; if idx[k] < alphabet.len() { break; } idx[k] = 0; k += 1; }
+    }
+    println!("VP-NATIVE settings_sequences cases={}", cases);
+}
+
 // ---------------------------------------------------------------- loopback servers for redirect / proxy / tunnel behaviour
 #[derive(Debug, Clone)] struct Seen { port: u16, first_line: String, host: Option<String>, body: Vec<u8>, raw_after_head: Vec<u8>, head: String }
 /// starts a server answering every connection with `reply(request_line) -> full response bytes`; records what it saw
